@@ -278,10 +278,11 @@ var checkNewLog = ev.Register("newlog", func(c *NewLogCase) ev.Outcome {
 // ---------------------------------------------------------------- QQ
 
 type ScaleSpec struct {
-	Log  bool    `json:"log"`
-	Min  float64 `json:"min"`
-	Max  float64 `json:"max"`
-	Base int     `json:"base,omitempty"`
+	Log   bool    `json:"log"`
+	Min   float64 `json:"min"`
+	Max   float64 `json:"max"`
+	Base  int     `json:"base,omitempty"`
+	Clamp bool    `json:"clamp,omitempty"`
 }
 
 func (sp ScaleSpec) build() scale.Quantitative {
@@ -290,15 +291,18 @@ func (sp ScaleSpec) build() scale.Quantitative {
 		if err != nil {
 			return nil
 		}
+		l.SetClamp(sp.Clamp)
 		return &l
 	}
-	return &scale.Linear{Min: sp.Min, Max: sp.Max}
+	return &scale.Linear{Min: sp.Min, Max: sp.Max, Clamp: sp.Clamp}
 }
 
 type QQCase struct {
-	Src  ScaleSpec `json:"src"`
-	Dest ScaleSpec `json:"dest"`
-	Us   []float64 `json:"us"` // positions in source scale units (0 = Min, 1 = Max)
+	Src     ScaleSpec `json:"src"`
+	Dest    ScaleSpec `json:"dest"`
+	SameObj bool      `json:"same_obj"` // Dest is the very same scale object as Src
+	Us      []float64 `json:"us"`       // positions in source scale units (0 = Min, 1 = Max)
+	Extra   []float64 `json:"extra"`    // raw x values (zero, wrong sign, far outside)
 }
 
 var checkQQ = ev.Register("qq", func(c *QQCase) ev.Outcome {
@@ -306,7 +310,23 @@ var checkQQ = ev.Register("qq", func(c *QQCase) ev.Outcome {
 	if src == nil || dst == nil {
 		return ev.Fail("harness error: scale spec")
 	}
+	if c.SameObj {
+		dst = src
+	}
 	q := scale.QQ{Src: src, Dest: dst}
+	sameBits := func(a, b float64) bool {
+		return math.Float64bits(a) == math.Float64bits(b) || (math.IsNaN(a) && math.IsNaN(b))
+	}
+	// the composition law holds for every input, also where Map is not invertible (clamped,
+	// degenerate, zero or wrong-sign input of a Log scale)
+	for _, x := range c.Extra {
+		if got, want := q.Map(x), dst.Unmap(src.Map(x)); !sameBits(got, want) {
+			return ev.Fail("QQ.Map(%v) = %v, Dest.Unmap(Src.Map(x)) = %v", x, got, want)
+		}
+		if got, want := q.Unmap(x), src.Unmap(dst.Map(x)); !sameBits(got, want) {
+			return ev.Fail("QQ.Unmap(%v) = %v, Src.Unmap(Dest.Map(y)) = %v", x, got, want)
+		}
+	}
 	nt := false
 	for _, u := range c.Us {
 		x := src.Unmap(u)
@@ -315,11 +335,14 @@ var checkQQ = ev.Register("qq", func(c *QQCase) ev.Outcome {
 		}
 		got := q.Map(x)
 		want := dst.Unmap(src.Map(x))
-		if math.Float64bits(got) != math.Float64bits(want) {
+		if !sameBits(got, want) {
 			return ev.Fail("QQ.Map(%v) = %v, Dest.Unmap(Src.Map(x)) = %v", x, got, want)
 		}
 		if math.IsNaN(got) || math.IsInf(got, 0) {
 			continue
+		}
+		if c.Src.Clamp || c.Dest.Clamp || c.Src.Min == c.Src.Max || c.Dest.Min == c.Dest.Max {
+			continue // not invertible: only the composition law applies
 		}
 		if un, w2 := q.Unmap(got), src.Unmap(dst.Map(got)); math.Float64bits(un) != math.Float64bits(w2) {
 			return ev.Fail("QQ.Unmap(%v) = %v, Src.Unmap(Dest.Map(y)) = %v", got, un, w2)
@@ -511,8 +534,31 @@ func TestQQ(t *testing.T) {
 			return ScaleSpec{Min: a, Max: a + w}
 		}
 		c := &QQCase{Src: spec("src"), Dest: spec("dest")}
+		switch rapid.IntRange(0, 5).Draw(rt, "pairing") {
+		case 0: // an identically configured destination
+			c.Dest = c.Src
+		case 1: // the very same object on both sides
+			c.Dest = c.Src
+			c.SameObj = true
+		}
+		if rapid.IntRange(0, 2).Draw(rt, "clamped") == 0 {
+			c.Src.Clamp = rapid.Bool().Draw(rt, "clampSrc")
+			c.Dest.Clamp = rapid.Bool().Draw(rt, "clampDest")
+			if c.SameObj {
+				c.Dest.Clamp = c.Src.Clamp
+			}
+		}
+		if rapid.IntRange(0, 9).Draw(rt, "degenerate") == 0 {
+			c.Src.Max = c.Src.Min
+			if c.SameObj || rapid.Bool().Draw(rt, "bothDegenerate") {
+				c.Dest = c.Src
+			}
+		}
 		for i := 0; i < 5; i++ {
 			c.Us = append(c.Us, rapid.Float64Range(-0.5, 1.5).Draw(rt, "u"))
+		}
+		for i := 0; i < 4; i++ {
+			c.Extra = append(c.Extra, rapid.SampledFrom([]float64{0, 1, -1, 10, -10, 1e9, -1e9, c.Src.Min, c.Src.Max, -c.Src.Min, c.Src.Min * 3, c.Src.Max * 3}).Draw(rt, "extra"))
 		}
 		checkQQ.Run(rt, c)
 	})
